@@ -82,6 +82,7 @@ type probeCounts struct {
 	MutatingOnObj      int64 // mutating operations on one object (history length measure)
 	PoolOutstanding    int64 // pooled objects taken and not put back when the run was over (O5, informational)
 	AliasedArgs        int64 // arguments passed as substrings of library-returned strings
+	StackSets          int64 // Sets performed on a stack copy of the object, deep in the goroutine stack
 	GCBetweenOps       int64 // collections forced between two operations of a task (ephemeral arguments)
 	ObjArgs            int64 // calls of discovered API that were handed objects of the version's type
 	ObjArgAliased      int64 // ... where an argument was the receiver itself or another argument
@@ -103,6 +104,7 @@ func (a *probeCounts) add(b *probeCounts) {
 	a.MutatingOnObj += b.MutatingOnObj
 	a.PoolOutstanding += b.PoolOutstanding
 	a.AliasedArgs += b.AliasedArgs
+	a.StackSets += b.StackSets
 	a.GCBetweenOps += b.GCBetweenOps
 	a.ObjArgs += b.ObjArgs
 	a.ObjArgAliased += b.ObjArgAliased
@@ -305,7 +307,12 @@ func callOp(a verAPI, op Op, obj unsafe.Pointer, lastErr error, out *opOut, live
 		out.str, out.err = v, err
 		out.res = v + "|" + canonErr(a, err)
 	case kSet:
-		err := a.Set(obj, op.S, op.S2)
+		var err error
+		if op.N > 0 {
+			err = a.SetOnStack(obj, op.S, op.S2, op.N)
+		} else {
+			err = a.Set(obj, op.S, op.S2)
+		}
 		out.err = err
 		out.res = canonErr(a, err)
 	case kScore:
@@ -736,6 +743,9 @@ func (x *runCtx) execOp(tc *taskCtx, opi int, op Op) {
 			}
 		}
 	case kSet:
+		if op.N > 0 {
+			tc.probes.StackSets++
+		}
 		x.afterSet(tc, opi, c, op, before, after, &out)
 	case kRTrip:
 		tc.probes.RoundTrips++
